@@ -41,13 +41,12 @@ class StringAdapter(Adapter):
     def save_policy(self, model):
         """saves all policy rules to the storage."""
         tmp = []
-        for ptype, ast in model["p"].items():
-            for rule in ast.policy:
-                tmp.append(ptype + ", " + util.array_to_string(rule) + "\n")
-
-        for ptype, ast in model["g"].items():
-            for rule in ast.policy:
-                tmp.append(ptype + ", " + util.array_to_string(rule) + "\n")
+        for sec in ["p", "g"]:
+            if sec not in model.keys():
+                continue
+            for ptype, ast in model[sec].items():
+                for rule in ast.policy:
+                    tmp.append(ptype + ", " + util.array_to_string(rule) + "\n")
 
         self.line = "".join(tmp).rstrip("\n")
 
